@@ -29,8 +29,8 @@ from dst import engine, seeds  # noqa: E402
 
 TIERS = {
     # property: tier: (runs, soft time cap in s)
-    "C10": {"quick": (12000, 75), "thorough": (240000, 1500)},
-    "C04": {"quick": (2400, 75), "thorough": (60000, 1800)},
+    "C10": {"quick": (12000, 75), "thorough": (200000, 1200)},
+    "C04": {"quick": (2400, 75), "thorough": (45000, 1200)},
     "C17": {"quick": (9000, 60), "thorough": (150000, 1200)},
 }
 
